@@ -185,6 +185,38 @@ theorem C15_symbol_token (c : Char) (cs : List Char)
   rw [if_neg hn, if_neg hi, if_neg hni, hstrip, hnum]
   split <;> rfl
 
+
+/-- **what the float printer relies on**: a digit-only token whose value does not fit in an `i64`
+is float syntax (the printer writes floats of magnitude ≥ 2^63 as bare digits) -/
+theorem C15_big_digits_token (ds : List Char) (h : allDigits ds = true) (hbig : 2 ^ 63 ≤ digitsVal ds) :
+    classify ds = .num := by
+  rcases C15_digits_token ds h with ⟨i, hi⟩ | hn
+  · -- it cannot be an integer: `parseI64` fails on a value ≥ 2^63
+    exfalso
+    have hne : ds ≠ [] := by
+      intro he; subst he; simp [allDigits] at h
+    obtain ⟨c, cs, rfl⟩ := List.exists_cons_of_ne_nil hne
+    have hc : c.isDigit = true := by
+      unfold allDigits at h
+      simp only [Bool.and_eq_true, List.all_cons] at h
+      exact h.2.1
+    have hp : parseI64 (c :: cs) = none := by
+      rw [parseI64_digit_head c cs hc, h]
+      have : ¬ digitsVal (c :: cs) < 2 ^ 63 := by omega
+      simp [this]
+    unfold classify at hi
+    split at hi
+    · cases hi
+    · split at hi
+      · cases hi
+      · rw [hp] at hi
+        simp only at hi
+        repeat (split at hi <;> try cases hi)
+  · exact hn
+
+example : classify "9223372036854775808".toList = .num :=
+  C15_big_digits_token _ (by decide) (by decide +kernel)
+
 /-! ### the classifier on concrete tokens (these are tests of the model, not theorems about all tokens) -/
 example : classify "9223372036854775807".toList = .int 9223372036854775807 := by decide +kernel
 example : classify "9223372036854775808".toList = .num := by decide +kernel
